@@ -27,6 +27,10 @@ func main() {
 		cacheChild()
 		return
 	}
+	if id == "parkchild" {
+		parkChild()
+		return
+	}
 	if id == "apichild" {
 		apiChild()
 		return
